@@ -3,7 +3,7 @@
 import json, os, sys
 ROOT = os.path.dirname(os.path.dirname(os.path.abspath(__file__)))
 sys.path.insert(0, os.path.join(ROOT, "tools"))
-from manifest_table import CHECKS, NOT_APPLICABLE, HOOK_COMMITS  # noqa
+from manifest_table import CHECKS, NOT_APPLICABLE, HOOK_COMMITS, BASELINE  # noqa
 ids = [json.loads(l)["id"] for l in open(os.path.join(ROOT, "properties.jsonl"))]
 checks = []
 for pid in ids:
@@ -26,7 +26,7 @@ m = {"version": 1,
      "setup_cmd": "./setup.sh",
      "hooks": {"guard": "AIOQUIC_VERIF",
                "enable": "no hooks in /repo are needed: each check copies /repo/src/aioquic into an overlay, recompiles _buffer.c/_crypto.c and observes the code through its public API and attribute reads from the harness process",
-               "baseline_off_cmd": "cd /repo && /venv/bin/python -m pytest -ra -q -p no:cacheprovider --timeout=900 --continue-on-collection-errors",
+               "baseline_off_cmd": BASELINE,
                "source_commits": HOOK_COMMITS, "add_only": True},
      "engines": [{"name": "tlc", "path": "/verif/check", "serves_properties": sorted(CHECKS),
                   "kind_free_text": "explicit TLA+ specifications in /verif/spec checked with TLC (design configurations) and bound to the code by closure/trace validation: Python drivers record edges/traces from the real objects and TLC judges every line with the operators of the design module"}],
